@@ -84,6 +84,33 @@ def gen_lines(rng, n):
     return ls
 
 
+def gen_index_lines(rng):
+    """array-index syntax (RFC 6901 §4: "0" or digits without a leading zero, or "-"): every printable single-byte token and digit/non-digit
+    pairs against arrays long enough that any `c - '0'` style arithmetic would land inside them"""
+    ls = []
+    singles = [bytes([c]) for c in range(0x20, 0x7f)]
+    pairs = [bytes([a, b]) for a in b"019:a-+ " for b in b"09:/a-. "]
+    nums = lambda n: [str(k).encode() for k in (0, 1, n - 1, n, n + 1, 10, 11, 16, 17, 49, 74, 79) if k >= 0]
+    for n in (0, 1, 3, 11, 12, 20, 50, 80):
+        arr = list(range(n))
+        for nest in (False, True):
+            d = Obj([(b"a", arr)]) if nest else arr
+            for tok in singles + pairs + nums(n):
+                loc = (b"/a" if nest else b"") + b"/" + esc(tok)
+                if n not in (12, 80) and rng.random() < 0.6:
+                    continue
+                kind = rng.choice("jo")
+                op = rng.choice(["get", "contains", "add", "addia", "replace", "remove"])
+                x = "x" + loc.hex()
+                if op in ("get", "contains"):
+                    ls.append("ptr %s %s %s %s" % (op, kind, x, wire.render(d)))
+                elif op == "remove":
+                    ls.append("ptr remove %s 0 %s %s" % (kind, x, wire.render(d)))
+                else:
+                    ls.append("ptr %s %s 0 %s %s %s" % (op, kind, x, wire.render(d), wire.render(b"new")))
+    return ls
+
+
 def gen_text_lines(rng, n):
     """pointer text <-> tokens"""
     ls = []
@@ -291,6 +318,8 @@ def streams(ctx, rng, scale):
     ctx.correspond("text-random", "ptr", lt, oracle, nontrivial)
     lo = gen_lines(rng, 4000 * scale)
     ctx.correspond("ops-random", "ptr", lo, oracle, nontrivial, ref_lines=with_ref(lo))
+    li = gen_index_lines(rng)
+    ctx.correspond("index-syntax", "ptr", li, oracle, nontrivial, ref_lines=with_ref(li))
     lf = gen_flat(rng, 800 * scale)
     flat_model = [l if l.split()[1] == "flatten" else "" for l in lf]
     ctx.correspond("flatten", "ptr", lf, flat_oracle, nontrivial,
